@@ -555,3 +555,34 @@ def r05_10_safe_plus_at_the_ends_of_time(ctx: Ctx) -> RuleResult:
                 else:
                     rr.fail(f.qual, f"day {days} ({'first' if days == lo else 'last' if days == hi else 'inner'}), nanosecond of day {nano}, offset {off_s:+d} s: reaches {sorted(got) or 'no constructor'}; instant + offset lies on day {fd}, so the answer is `{want}`", ctx.loc(f))
     return rr
+
+
+@rule("C05")
+def r05_11_local_instant_day_range(ctx: Ctx) -> RuleResult:
+    """A _LocalInstant built from a Duration must accept exactly the days [Instant._MIN_DAYS, Instant._MAX_DAYS]: the local
+    rendering of an instant on the last day of time (9999-12-31 in any zone that is at or ahead of UTC there) is a valid local
+    instant.  The guard of the OverflowError is evaluated by the abstract interpreter at both bounds and one day beyond."""
+    from ..absint import Iv, State
+    from ..oblig import interp
+
+    rr = RuleResult("R05.11", "_LocalInstant._ctor(nanoseconds=...) rejects exactly the days outside [Instant._MIN_DAYS, Instant._MAX_DAYS] (guard evaluated at the bounds)", min_instances=4)
+    M = ctx.M
+    f = M.func("_LocalInstant._ctor", required=True)
+    lo, hi = M.fold_class_const("Instant", "_MIN_DAYS"), M.fold_class_const("Instant", "_MAX_DAYS")
+    if not (isinstance(lo, int) and isinstance(hi, int)):
+        raise AnalysisError("Instant day range not foldable")
+    guards = [n for n in own_nodes(f.node) if isinstance(n, ast.If) and any(isinstance(x, ast.Raise) and "OverflowError" in unparse(x) for x in n.body)
+              and any(isinstance(x, ast.Name) and x.id == "days" for x in ast.walk(n.test))]
+    if len(guards) != 1:
+        raise AnalysisError(f"{f.qual}: expected one OverflowError guard on `days`, found {len(guards)}")
+    g = guards[0]
+    for d, want in ((lo - 1, 1), (lo, 0), (0, 0), (hi - 1, 0), (hi, 0), (hi + 1, 1)):
+        rr.inst()
+        v = interp(ctx).ev(g.test, State({"days": Iv(d, d)}), f, 0)
+        if isinstance(v, Iv) and v.const and int(v.lo) == want:
+            rr.ok({"day": d, "rejected": bool(want)})
+        elif isinstance(v, Iv) and v.const:
+            rr.fail(f.qual, f"day {d} ({'the last' if d == hi else 'the first' if d == lo else 'a'} day of time{'' if lo <= d <= hi else ', outside'}) is {'rejected' if v.lo else 'accepted'}: local instants on days [{lo}, {hi}] are all valid (9999-12-31 local time exists in every zone at or ahead of UTC)", ctx.loc(f, g))
+        else:
+            rr.fail(f.qual, f"the guard `{unparse(g.test)[:70]}` could not be evaluated at day {d} (not decided)", ctx.loc(f, g))
+    return rr
